@@ -68,9 +68,17 @@ def make_layouts(rng, pop):
     inner = [i for i in range(len(pop)) if dur(pop[i]) > 1 and pop[i]["lt"] <= top and i not in edge]
     e1 = [pop[i] for i in edge + inner]
     e2 = [pop[i] for i in range(len(pop)) if i not in edge and i not in inner]
-    for f in (f1, f2, g1, g2, g3, h1, h2, e1, e2):
+    # id-sliced: the middle file holds only ids above everything in the oldest file, the newest file reaches back
+    # below it with new versions of streams of the oldest file (an import that continues old streams)
+    n = len(pop)
+    low, mid = n * 3 // 8, n * 11 // 16
+    sh4 = rng.sample(range(low), min(10, low))
+    s1 = [old_version(pop[i], pop[(i * 13 + 5) % n]) for i in sh4] + [pop[i] for i in range(low) if i not in sh4]
+    s2 = [pop[i] for i in range(low, mid)]
+    s3 = [pop[i] for i in sh4] + [pop[i] for i in range(mid, n)]
+    for f in (f1, f2, g1, g2, g3, h1, h2, e1, e2, s1, s2, s3):
         rng.shuffle(f)
-    return [one, two, [g1, g2, g3], [h1, h2], [e1, e2]]
+    return [one, two, [g1, g2, g3], [h1, h2], [e1, e2], [s1, s2, s3]]
 
 
 RUNS = [
